@@ -486,6 +486,7 @@ void scan_deps(const std::string& orig_portname, std::string cur_portname,
     };
 
     // this port and all parent ports can be enabled by another port, so check them all
+    const std::string scanned_port = cur_portname; // (cur_portname loses its tail below)
     bool is_leaf_level = true;
     for(std::string::size_type last_slash;
         cur_portname.size() && (last_slash = cur_portname.find_last_of('/')) != std::string::npos;
@@ -504,7 +505,10 @@ void scan_deps(const std::string& orig_portname, std::string cur_portname,
             const char* enabled_by = self ? self->meta()["enabled by"] : NULL;
             std::string abs = enabled_by ? rel2abs(enabled_by, cur_portname + '/')
                                          : std::string();
-            if(enabled_by && abs != orig_portname)
+            // (the enabling port lives inside the directory it enables: it does
+            //  not depend on itself, neither when it has a line nor when it is
+            //  scanned because it has none)
+            if(enabled_by && abs != orig_portname && abs != scanned_port)
             {
                 auto itr = message_map.find(abs);
                 if(itr != message_map.end())
